@@ -70,6 +70,22 @@ def lake(args, timeout=3000):
     return r.returncode, r.stdout + r.stderr
 
 
+class build_lock:
+    """checks of several properties may be started at the same time in one checkout: the translator's output and the
+    lake build directory are shared, so regenerate-and-build is one critical section (the correspondence runs are not)"""
+
+    def __enter__(self):
+        import fcntl
+        self.f = open(os.path.join(LEAN, ".verif-build.lock"), "w")
+        fcntl.flock(self.f, fcntl.LOCK_EX)
+        return self
+
+    def __exit__(self, *a):
+        import fcntl
+        fcntl.flock(self.f, fcntl.LOCK_UN)
+        self.f.close()
+
+
 def strip_comments(src):
     # remove /- ... -/ (nested not handled beyond one level is fine for our files) and -- line comments
     out = []
@@ -361,13 +377,14 @@ def run_check(mod, tier="quick", seed=0, replay=None):
     if replay:
         return run_replay(mod, replay)
     log(f"[{pid}] tier={tier} seed={seed}")
-    summary, err = extract()
-    if summary is None:
-        log(f"[{pid}] translator failed (cannot import the working tree):\n{err[-2000:]}")
-        return 2
-    log(f"[{pid}] extract: {summary['machines']} machines, {summary['transitions']} transitions, changed={summary['changed']}")
-    pr = prove(pid, COMMON_MODULES + list(mod.PROP_MODULES), extra_targets=tuple(["wvdriver"] + list(getattr(mod, "EXTRA_TARGETS", ()))),
-               native_ok=tuple(getattr(mod, "NATIVE_DECIDE_MODULES", ())))
+    with build_lock():
+        summary, err = extract()
+        if summary is None:
+            log(f"[{pid}] translator failed (cannot import the working tree):\n{err[-2000:]}")
+            return 2
+        log(f"[{pid}] extract: {summary['machines']} machines, {summary['transitions']} transitions, changed={summary['changed']}")
+        pr = prove(pid, COMMON_MODULES + list(mod.PROP_MODULES), extra_targets=tuple(["wvdriver"] + list(getattr(mod, "EXTRA_TARGETS", ()))),
+                   native_ok=tuple(getattr(mod, "NATIVE_DECIDE_MODULES", ())))
     log(f"[{pid}] prove: build_ok={pr['build_ok']} driver_ok={pr['driver_ok']} theorems={len(pr['theorems'])} "
         f"forbidden={len(pr['forbidden'])} bad_axioms={len(pr['bad_axioms'])}")
     if tier == "thorough" and pr["build_ok"]:
